@@ -481,8 +481,17 @@ fn answer_inner(line: &str) -> String {
             match LanguageIdentifier::from_bytes(&v) {
                 Ok(mut li) => {
                     let r0 = render_li(&li);
+                    // for half of the inputs a read-only query (character_direction) is made right before each call: it
+                    // must not change what maximize / minimize answer
+                    let noise = v.iter().fold(0u32, |a, c| a.wrapping_mul(31).wrapping_add(*c as u32)) % 2 == 1;
+                    if noise {
+                        let _ = li.character_direction();
+                    }
                     let b1 = if op == "limax" { li.maximize() } else { li.minimize() };
                     let r1 = render_li(&li);
+                    if noise {
+                        let _ = li.character_direction();
+                    }
                     let b2 = if op == "limax" { li.maximize() } else { li.minimize() };
                     format!("ok {} | {} {} | {} {}", r0, b(b1), r1, b(b2), render_li(&li))
                 }
